@@ -380,7 +380,7 @@ def run(tier, seed, part=None):
                  ({"max_tick": 6, "max_loss": 1, "max_edit": 1, "max_adv": 2, "poll": True}, 8, 0),
                  ({"max_tick": 3, "max_loss": 1, "max_edit": 1, "max_adv": 1, "poll": True}, 6, 1),
                  ({"max_tick": 2, "max_loss": 3, "max_edit": 1, "max_adv": 1, "poll": False, "max_silent": 1, "max_failopen": 2}, 9, 0)]
-        cap = 700
+        cap = 300
     for gen in (4, 5):
         for extra, depth, dev in plans:
             if gen == 5 and extra.get("poll") and tier == "quick":
